@@ -140,6 +140,26 @@ func loadKnown(path string) ([]KnownFinding, error) {
 	return k.Findings, nil
 }
 
+// unresolved counts the obligations that are neither discharged nor listed as open known findings.
+func (c *Ctx) unresolved() int {
+	n := 0
+	for _, o := range c.Obls {
+		if o.Status == stOK || o.Status == stKnown {
+			continue
+		}
+		isKnown := false
+		for _, k := range c.Known {
+			if k.Status == "open" && k.Property == c.Prop && k.Rule == o.Rule && k.Key == o.Key {
+				isKnown = true
+			}
+		}
+		if !isKnown {
+			n++
+		}
+	}
+	return n
+}
+
 // finish prints the obligation lines, writes evidence and replay files, returns the exit code.
 func (c *Ctx) finish(evDir string, writeEvidence bool, seed int, start time.Time, configs []string) int {
 	sort.SliceStable(c.Obls, func(i, j int) bool {
